@@ -206,13 +206,15 @@ def run_property(pid: str, tier: str, seed: int) -> int:
     try:
         from bounded import registry as breg
         for fn in breg.for_property(pid):
-            res = fn(tier=tier, seed=seed, known=known_ids)
+            res = fn(tier=tier, seed=seed, known=set(known_ids) | {"NOTE-outside-claim"})
             standins.append(res["summary"])
             for v in res.get("violations", []):
                 path = os.path.join(REPLAYS, pid, v["file"])
                 json.dump(v["data"], open(path, "w"), indent=1, default=str)
                 violations.append((path, ""))
             known_lines += res.get("known_lines", [])
+        for mname, err in breg.IMPORT_ERRORS.items():
+            machinery_fault.append(f"stand-in module bounded.{mname} failed to import: {err}")
     except ImportError:
         pass
     # ---- evidence ------------------------------------------------------------------------------------------
